@@ -45,11 +45,18 @@ ADVERSARIAL = {
 MAX_ENUM = 300
 
 
-def small_program(r):
-    """small problems with a horizon: tasks, a worker / a selection, optional tasks, a few constraints"""
+PATTERNS = ['parking', 'cumul_units', 'shared_workers', 'work_amounts', None, None, None, None]
+
+
+def small_program(r, k=None):
+    """small problems with a horizon: tasks, a worker / a selection, optional tasks, a few constraints.
+    k: position in the sample -- the special patterns are stratified (each gets one program in eight), so that a quick run
+    covers each of them several times whatever the seed; without k they are drawn at random"""
     hz = r.choice([5, 6, 7, 8])
     Z, N = terms.Z, terms.N
-    if r.random() < 0.25:
+    pat = PATTERNS[k % len(PATTERNS)] if k is not None else None
+    x1, x2, x3, x4 = r.random(), r.random(), r.random(), r.random()      # drawn in any case: the stream does not depend on k
+    if pat == 'parking' or (k is None and x1 < 0.25):
         # an optional task and an alternative-worker selection sharing a worker: both park empty busy intervals in the
         # past (at -task_number and at a unique negative integer), both numberings depend on the declaration order
         ops = [('ONewProblem', terms.optZ(r.choice([4, 5])))]
@@ -65,7 +72,7 @@ def small_program(r):
         if r.random() < 0.5:
             ops.append(('OAddRequired', N(3), ('ArgW', ('WPlain', N(2))), False, Z(0), Z(0)))
         return ops
-    if r.random() < 0.12:
+    if pat == 'cumul_units' or (k is None and x2 < 0.12):
         # a cumulative worker whose units are not interchangeable (productivity not a multiple of the size) and tasks with
         # different work amounts: which task gets which unit must not depend on the order of declaration
         ops = [('ONewProblem', terms.optZ(r.choice([2, 3])))]
@@ -77,7 +84,7 @@ def small_program(r):
         for i in (1, 2):
             ops.append(('OAddRequired', N(i), ('ArgC', N(1)), False, Z(0), Z(0)))
         return ops
-    if r.random() < 0.12:
+    if pat == 'shared_workers' or (k is None and x3 < 0.12):
         # two tasks that share two workers, one of them joined dynamically or with delays: what keeps the tasks apart must
         # not depend on which worker was declared first
         ops = [('ONewProblem', terms.optZ(r.choice([5, 6, 8])))]
@@ -89,7 +96,7 @@ def small_program(r):
             ops.append(('OAddRequired', N(i), ('ArgW', ('WPlain', N(1))), dyn, Z(0 if dyn else 1), Z(0 if dyn else 1)))
             ops.append(('OAddRequired', N(i), ('ArgW', ('WPlain', N(2))), False, Z(0), Z(0)))
         return ops
-    if r.random() < 0.2:
+    if pat == 'work_amounts' or (k is None and x4 < 0.2):
         # work amounts: an optional task and a mandatory one, each on its own worker, each with a work amount that decides its
         # duration; the work of one task is its own business, whatever the order of declaration (small horizon: the
         # schedules can be enumerated completely)
@@ -399,7 +406,7 @@ def run(ctx, replay=None):
     if replay is not None:
         progs = [terms.from_jsonable(replay['program'])]
     else:
-        progs = [small_program(r) for _ in range(cfg['n'][0 if quick else 1])]
+        progs = [small_program(r, k) for k in range(cfg['n'][0 if quick else 1])]
     t1 = time.time()
     # one fresh process per case: the first observation of a case is made in a process that has built nothing before
     results = common.pmap(observe_case, [(i, p, ctx.seed) for i, p in enumerate(progs)])
